@@ -14,8 +14,8 @@ Section TxProofs.
   Proof. destruct o; simpl; intro H; try discriminate; contradiction H; reflexivity. Qed.
 
   (* ---- one call ---- *)
-  Lemma stage_records_spec w h arg recs w' fo wr t :
-    stage_records conv w h arg recs = (w', fo, wr, t) ->
+  Lemma stage_records_spec late w h arg recs w' fo wr t :
+    stage_records conv late w h arg recs = (w', fo, wr, t) ->
     w_schema w' = w_schema w /\ w_snaps w' = w_snaps w /\ (t <> 0 -> fo = None).
   Proof.
     unfold stage_records. destruct (resolve (w_schema w) arg) as [s|o].
@@ -24,6 +24,7 @@ Section TxProofs.
     destruct (create_arrow_schema (cache_of w h) s) as [a c'].
     destruct (convert conv a recs) as [rows|]; [|intro H; inversion H; subst; auto].
     destruct (bounds_for (sfields s) a rows) as [lo hi].
+    destruct late; [intro H; inversion H; subst; simpl; auto|].
     match goal with |- context [check_files ?x ?y ?z] => destruct (check_files x y z) as [c2 ok] end.
     destruct ok; intro H; inversion H; subst; simpl; repeat split; auto. intro N; contradiction N; reflexivity.
   Qed.
@@ -33,13 +34,59 @@ Section TxProofs.
     call_step conv w h c = (w', wr, t, added) ->
     w_schema w' = w_schema w /\ w_snaps w' = w_snaps w /\ (t <> 0 -> added = []).
   Proof.
-    destruct c as [arg recs|fs]; simpl.
-    - destruct (stage_records conv w h arg recs) as [[[w1 fo] wr1] t1] eqn:S.
-      destruct (stage_records_spec _ _ _ _ _ _ _ _ S) as [H1 [H2 H3]].
+    assert (R : forall late arg recs, call_records conv late w h arg recs = (w', wr, t, added) ->
+                w_schema w' = w_schema w /\ w_snaps w' = w_snaps w /\ (t <> 0 -> added = [])).
+    { intros late arg recs. unfold call_records. destruct (stage_records conv late w h arg recs) as [[[w1 fo] wr1] t1] eqn:S.
+      destruct (stage_records_spec _ _ _ _ _ _ _ _ _ S) as [H1 [H2 H3]].
       destruct fo as [f|]; intro H; inversion H; subst; repeat split; auto.
-      intro N. specialize (H3 N). discriminate.
-    - destruct (check_files (w_schema w) (cache_of w h) fs) as [c' ok].
-      destruct ok; intro H; inversion H; subst; simpl; repeat split; auto. intro N; contradiction N; reflexivity.
+      intro N. specialize (H3 N). discriminate. }
+    assert (F : forall fs, call_files w h fs = (w', wr, t, added) ->
+                w_schema w' = w_schema w /\ w_snaps w' = w_snaps w /\ (t <> 0 -> added = [])).
+    { intros fs. unfold call_files. destruct (check_files (w_schema w) (cache_of w h) fs) as [c' ok].
+      destruct ok; intro H; inversion H; subst; simpl; repeat split; auto. intro N; contradiction N; reflexivity. }
+    destruct c as [arg recs|fs|ft arg recs|ft fs]; simpl.
+    - apply R.
+    - apply F.
+    - destruct ft.
+      + intro H; inversion H; subst; auto.
+      + destruct (resolve (w_schema w) arg); intro H; inversion H; subst; auto.
+      + apply R.
+    - destruct ft; try apply F. intro H; inversion H; subst; auto.
+  Qed.
+
+  (* C11_tx_fault_fails_closed: unreadable metadata is never taken for "no persisted schema" *)
+  Lemma resolve_inr_tag t0 arg o : resolve t0 arg = inr o -> tag_of o <> 0.
+  Proof.
+    unfold resolve. destruct arg as [a|], t0 as [s|]; try discriminate.
+    - destruct (accept_schema (sfields s) (sfields a)); intro H; inversion H; subst; discriminate.
+    - intro H; inversion H; subst; discriminate.
+  Qed.
+
+  Lemma stage_records_late w h arg recs w' fo wr t :
+    stage_records conv true w h arg recs = (w', fo, wr, t) -> t <> 0 /\ fo = None.
+  Proof.
+    unfold stage_records. destruct (resolve (w_schema w) arg) as [s|o] eqn:R.
+    2:{ intro H; inversion H; subst. split; [exact (resolve_inr_tag _ _ _ R) | reflexivity]. }
+    destruct (negb (forallb (validate_record (sfields s)) recs)); [intro H; inversion H; subst; split; [discriminate | reflexivity]|].
+    destruct (create_arrow_schema (cache_of w h) s) as [a c'].
+    destruct (convert conv a recs) as [rows|]; [|intro H; inversion H; subst; split; [discriminate | reflexivity]].
+    destruct (bounds_for (sfields s) a rows) as [lo hi].
+    intro H; inversion H; subst. split; [discriminate | reflexivity].
+  Qed.
+
+  Lemma fault_fails_closed w h :
+    (forall arg recs, call_step conv w h (CRecordsF FBefore arg recs) = (w, [], tag_storage_fault, []))
+    /\ (forall fs, call_step conv w h (CFilesF FBefore fs) = (w, [], tag_storage_fault, []))
+    /\ (forall ft arg recs w' wr t added, call_step conv w h (CRecordsF ft arg recs) = (w', wr, t, added) -> t <> 0 /\ added = []).
+  Proof.
+    split; [reflexivity|]. split; [reflexivity|].
+    intros ft arg recs w' wr t added. destruct ft; simpl.
+    - intro H; inversion H; subst. split; [discriminate | reflexivity].
+    - destruct (resolve (w_schema w) arg) as [s|o] eqn:R; intro H; inversion H; subst.
+      + split; [discriminate | reflexivity].
+      + split; [exact (resolve_inr_tag _ _ _ R) | reflexivity].
+    - unfold call_records. destruct (stage_records conv true w h arg recs) as [[[w1 fo] wr1] t1] eqn:S.
+      destruct (stage_records_late _ _ _ _ _ _ _ _ S) as [T ->]. intro H; inversion H; subst. split; [exact T | reflexivity].
   Qed.
 
   (* ---- the calls of a transaction ---- *)
@@ -84,7 +131,7 @@ Section TxProofs.
     destruct (run_calls_spec _ _ _ _ _ _ _ R) as [Q [Hn [S1 S2]]]. simpl in Q.
     exists tr. split; [exact Hn|]. split.
     { exact (run_calls_length _ _ _ _ _ _ _ R). }
-    rewrite E. simpl. rewrite Q. destruct (flat_map snd tr) as [|f fs]; [split; assumption|].
+    rewrite E. simpl. rewrite Q. simpl. destruct (flat_map snd tr) as [|f fs]; [split; assumption|].
     simpl. split; [exact S1|]. unfold current. rewrite S2. reflexivity.
   Qed.
 
@@ -97,7 +144,7 @@ Section TxProofs.
     intro E. unfold run_tx. destruct (run_calls conv w tx_empty (t_handle t) (t_calls t)) as [[w1 q] tr] eqn:R.
     destruct (run_calls_spec _ _ _ _ _ _ _ R) as [_ [_ [S1 S2]]].
     assert (G : w_schema (end_tx w1 q (t_end t)) = w_schema w1 /\ w_snaps (end_tx w1 q (t_end t)) = w_snaps w1).
-    { destruct (t_end t) as [[|]| |]; simpl; auto. contradiction E; reflexivity. }
+    { destruct (t_end t) as [[|]| |]; simpl; auto; [contradiction E; reflexivity|]. destruct (q_files q); simpl; auto. }
     destruct G as [G1 G2]. repeat split; try congruence.
     unfold full_scan, current. rewrite G2, S2. reflexivity.
   Qed.
@@ -147,36 +194,64 @@ Section TxProofs.
   Lemma invt_with_store w st n : InvT w -> InvT (with_store w st n).
   Proof. intro I. constructor; simpl; apply I. Qed.
 
+  Lemma stage_records_invt late w h arg recs w' fo wr t : InvT w -> stage_records conv late w h arg recs = (w', fo, wr, t) ->
+    InvT w' /\ forall f, fo = Some f -> df_arrow f = A.
+  Proof.
+    intros I. unfold stage_records. rewrite (it_schema w I).
+    destruct (resolve (Some ts) arg) as [s|o] eqn:R.
+    2:{ intro H; inversion H; subst. split; [exact I | discriminate]. }
+    pose proof (resolve_fields ts _ _ R) as F.
+    destruct (negb (forallb (validate_record (sfields s)) recs)); [intro H; inversion H; subst; split; [exact I | discriminate]|].
+    destruct (create_arrow_schema (cache_of w h) s) as [a c'] eqn:CA.
+    destruct (create_ok ts _ _ _ _ (invt_cache_of w h I) F CA) as [Ea Cc]. subst a.
+    pose proof (invt_set_cache w h c' I Cc) as I1.
+    destruct (convert conv (arrow_of (sfields ts)) recs) as [rows|]; [|intro H; inversion H; subst; split; [exact I1 | discriminate]].
+    destruct (bounds_for (sfields s) (arrow_of (sfields ts)) rows) as [lo hi].
+    set (w2 := with_store (set_cache w h c') (w_next w :: w_store (set_cache w h c')) (w_next w + 1)).
+    pose proof (invt_with_store _ (w_next w :: w_store (set_cache w h c')) (w_next w + 1) I1) as I2. fold w2 in I2.
+    destruct late; [intro H; inversion H; subst; split; [exact I2 | discriminate]|].
+    match goal with |- context [check_files ?x ?y ?z] => destruct (check_files x y z) as [c2 ok] eqn:CF end.
+    assert (E2 : w_schema w2 = Some ts) by (exact (it_schema w2 I2)).
+    rewrite E2 in CF. destruct (check_files_ok _ _ _ _ (invt_cache_of w2 h I2) CF) as [C2 _].
+    pose proof (invt_set_cache w2 h c2 I2 C2) as I3.
+    destruct ok; intro H; inversion H; subst; (split; [exact I3|]).
+    - intros f E. inversion E; subst. reflexivity.
+    - discriminate.
+  Qed.
+
+  Lemma call_records_invt late w h arg recs w' wr t added : InvT w -> call_records conv late w h arg recs = (w', wr, t, added) ->
+    InvT w' /\ forall f, In f added -> df_arrow f = A.
+  Proof.
+    intros I. unfold call_records. destruct (stage_records conv late w h arg recs) as [[[w1 fo] wr1] t1] eqn:S.
+    destruct (stage_records_invt _ _ _ _ _ _ _ _ _ I S) as [I1 P].
+    destruct fo as [f0|]; intro H; inversion H; subst; (split; [exact I1|]).
+    - intros f [<-|[]]. apply P. reflexivity.
+    - intros f [].
+  Qed.
+
+  Lemma call_files_invt w h fs w' wr t added : InvT w -> call_files w h fs = (w', wr, t, added) ->
+    InvT w' /\ forall f, In f added -> df_arrow f = A.
+  Proof.
+    intros I. unfold call_files. rewrite (it_schema w I).
+    destruct (check_files (Some ts) (cache_of w h) fs) as [c' ok] eqn:CF.
+    destruct (check_files_ok _ _ _ _ (invt_cache_of w h I) CF) as [C1 P].
+    pose proof (invt_set_cache w h c' I C1) as I1.
+    destruct ok; intro H; inversion H; subst; (split; [exact I1|]).
+    - intros f Hf. apply in_map_iff in Hf. destruct Hf as [p [<- Hp]]. simpl. exact (P eq_refl p Hp).
+    - intros f [].
+  Qed.
+
   Lemma call_step_invt w h c w' wr t added : InvT w -> call_step conv w h c = (w', wr, t, added) ->
     InvT w' /\ forall f, In f added -> df_arrow f = A.
   Proof.
-    intros I. destruct c as [arg recs|fs]; simpl.
-    - unfold stage_records. rewrite (it_schema w I).
-      destruct (resolve (Some ts) arg) as [s|o] eqn:R.
-      2:{ intro H; inversion H; subst. split; [exact I | intros f []]. }
-      pose proof (resolve_fields ts _ _ R) as F.
-      destruct (negb (forallb (validate_record (sfields s)) recs)); [intro H; inversion H; subst; split; [exact I | intros f []]|].
-      destruct (create_arrow_schema (cache_of w h) s) as [a c'] eqn:CA.
-      destruct (create_ok ts _ _ _ _ (invt_cache_of w h I) F CA) as [Ea Cc]. subst a.
-      pose proof (invt_set_cache w h c' I Cc) as I1.
-      destruct (convert conv (arrow_of (sfields ts)) recs) as [rows|]; [|intro H; inversion H; subst; split; [exact I1 | intros f []]].
-      destruct (bounds_for (sfields s) (arrow_of (sfields ts)) rows) as [lo hi].
-      set (w2 := with_store (set_cache w h c') (w_next w :: w_store (set_cache w h c')) (w_next w + 1)).
-      pose proof (invt_with_store _ (w_next w :: w_store (set_cache w h c')) (w_next w + 1) I1) as I2. fold w2 in I2.
-      match goal with |- context [check_files ?x ?y ?z] => destruct (check_files x y z) as [c2 ok] eqn:CF end.
-      assert (E2 : w_schema w2 = Some ts) by (exact (it_schema w2 I2)).
-      rewrite E2 in CF. destruct (check_files_ok _ _ _ _ (invt_cache_of w2 h I2) CF) as [C2 _].
-      pose proof (invt_set_cache w2 h c2 I2 C2) as I3.
-      destruct ok; intro H; inversion H; subst; (split; [exact I3|]).
-      + intros f [<-|[]]. reflexivity.
-      + intros f [].
-    - rewrite (it_schema w I).
-      destruct (check_files (Some ts) (cache_of w h) fs) as [c' ok] eqn:CF.
-      destruct (check_files_ok _ _ _ _ (invt_cache_of w h I) CF) as [C1 P].
-      pose proof (invt_set_cache w h c' I C1) as I1.
-      destruct ok; intro H; inversion H; subst; (split; [exact I1|]).
-      + intros f Hf. apply in_map_iff in Hf. destruct Hf as [p [<- Hp]]. simpl. exact (P eq_refl p Hp).
-      + intros f [].
+    intros I. destruct c as [arg recs|fs|ft arg recs|ft fs]; simpl.
+    - apply call_records_invt; exact I.
+    - apply call_files_invt; exact I.
+    - destruct ft.
+      + intro H; inversion H; subst. split; [exact I | intros f []].
+      + destruct (resolve (w_schema w) arg); intro H; inversion H; subst; (split; [exact I | intros f []]).
+      + apply call_records_invt; exact I.
+    - destruct ft; try (apply call_files_invt; exact I). intro H; inversion H; subst. split; [exact I | intros f []].
   Qed.
 
   Lemma run_calls_invt h cs : forall w q w' q' tr, InvT w -> (forall f, In f (q_files q) -> df_arrow f = A) ->
@@ -196,6 +271,7 @@ Section TxProofs.
     assert (Q0 : forall f, In f (q_files tx_empty) -> df_arrow f = A) by (intros f []).
     destruct (run_calls_invt _ _ _ _ _ _ _ I Q0 R) as [I1 Q].
     destruct (t_end t) as [[|]| |]; simpl; auto; try (apply invt_with_store; exact I1).
+    2:{ destruct (q_files q); [exact I1 | apply invt_with_store; exact I1]. }
     destruct (q_files q) as [|f0 fs0] eqn:QF; [exact I1|].
     constructor; simpl; try apply I1. intros snap f [E|H] Hf.
     - subst snap. apply in_app_or in Hf. destruct Hf as [Hf|Hf]; [|apply Q; exact Hf].
